@@ -115,7 +115,17 @@ func zzStageRunners(backend int, mod *ir.Module) (zzStageRunner, zzStageRunner, 
 	var d zzclike.Dialect
 	switch backend {
 	case 0:
-		t, info, err := hlsl.Compile(mod, hlsl.DefaultOptions())
+		ho := hlsl.DefaultOptions()
+		if zz.Choice("hlsl-fragment-filter", 2) == 1 {
+			// vertex outputs filtered by the fragment entry point that consumes them: every
+			// location the fragment shader reads must still be written
+			for i := range mod.EntryPoints {
+				if mod.EntryPoints[i].Name == "fs" {
+					ho.FragmentEntryPoint = &hlsl.FragmentEntryPoint{Module: mod, Function: &mod.EntryPoints[i].Function}
+				}
+			}
+		}
+		t, info, err := hlsl.Compile(mod, ho)
 		zz.Assert(err == nil, "HLSL backend rejected the stage program")
 		if err != nil {
 			return nil, nil, false
